@@ -152,7 +152,8 @@ struct SIMDVector<std::complex<float>, simd_abi::avx512> {
     FASTOR_INLINE void operator/=(scalar_value_type num) {
         *this /= vector_type(num);
     }
-    FASTOR_INLINE void operator/=(const vector_type &a) {
+    FASTOR_INLINE void operator/=(const vector_type &a_) {
+        const vector_type a(a_); // a_ may be *this
         __m512 tmp = value_r;
 #ifdef FASTOR_FMA_IMPL
         value_r     = _mm512_fmadd_ps(value_r  , a.value_r, _mm512_mul_ps(value_i,a.value_i));
@@ -696,7 +697,8 @@ struct SIMDVector<std::complex<float>, simd_abi::avx> {
     FASTOR_INLINE void operator/=(scalar_value_type num) {
         *this /= vector_type(num);
     }
-    FASTOR_INLINE void operator/=(const vector_type &a) {
+    FASTOR_INLINE void operator/=(const vector_type &a_) {
+        const vector_type a(a_); // a_ may be *this
         __m256 tmp = value_r;
 #ifdef FASTOR_FMA_IMPL
         value_r     = _mm256_fmadd_ps(value_r  , a.value_r, _mm256_mul_ps(value_i,a.value_i));
@@ -1217,7 +1219,8 @@ struct SIMDVector<std::complex<float>, simd_abi::sse> {
     FASTOR_INLINE void operator/=(scalar_value_type num) {
         *this /= vector_type(num);
     }
-    FASTOR_INLINE void operator/=(const vector_type &a) {
+    FASTOR_INLINE void operator/=(const vector_type &a_) {
+        const vector_type a(a_); // a_ may be *this
         __m128 tmp = value_r;
 #ifdef FASTOR_FMA_IMPL
         value_r     = _mm_fmadd_ps(value_r  , a.value_r, _mm_mul_ps(value_i,a.value_i));
